@@ -351,6 +351,14 @@ func Finish(ch *Check, c *Ctx, root string, wall time.Duration) int {
 		fmt.Printf("  unit=%s key=%q %s\n", f.Unit, f.Key, oneLine(f.Msg, 600))
 		exit = 1
 	}
+	// development aid: every finding of the last run, one per line
+	{
+		var sb strings.Builder
+		for _, f := range c.Findings {
+			fmt.Fprintf(&sb, "%s\t%s\t%s\n", f.Unit, f.Key, oneLine(f.Msg, 400))
+		}
+		os.WriteFile(filepath.Join(root, ".cache", "findings-"+ch.ID+".txt"), []byte(sb.String()), 0o644)
+	}
 	for _, m := range c.Internal {
 		fmt.Fprintf(os.Stderr, "INTERNAL (machinery, not a property verdict): %s\n", oneLine(m, 1500))
 	}
